@@ -344,6 +344,13 @@ def other_cases(tier):
                 if 'block' in delays[:-1] and any(d != 'block' for d in delays[delays.index('block') + 1:]):
                     continue                    # nothing runs after a stuck command
                 cases.append({'kind': 'pipe', 'per_recipient': per, 'n': n, 'delays': list(delays)})
+    # the ready-made delivery-program relays take the same timeout
+    for rc in ('maildrop', 'dovecot'):
+        for per in (True, False):
+            for delays in (['block'], [0.55], [1.2], [0.35, 'block']):
+                if len(delays) > 1 and not per:
+                    continue
+                cases.append({'kind': 'pipe', 'relay_class': rc, 'per_recipient': per, 'n': 2 if len(delays) > 1 else 1, 'delays': delays})
     for proto in ('smtp', 'lmtp'):
         cases.append({'kind': 'default-socket', 'proto': proto})
     for mode in ('no-response', 'mid-headers', 'connect', 'mid-body', 'chunked-unfinished', 'slow-body'):
@@ -387,6 +394,8 @@ def judge_other(case):
         return judge_default_socket(case)
     recs = []
     base = {'side': case['kind'] + ('' if case['kind'] == 'http' else ('-per-recipient' if case['per_recipient'] else '-whole'))}
+    if case.get('relay_class'):
+        base['relay_class'] = case['relay_class']
     with World(Chooser(), max_steps=5000, horizon=200.0) as w:
         if case['kind'] == 'pipe':
             import slimta.relay.pipe as pipe
@@ -399,7 +408,13 @@ def judge_other(case):
                     return 'block'
                 return ('sleep', d * T_OTHER, (0, b'', b''))
             w.patch(pipe, 'subprocess', FakeSubprocess(script))
-            relay = pipe.PipeRelay(['x', '{recipient}'], timeout=T_OTHER)
+            rc = case.get('relay_class', 'pipe')
+            if rc == 'maildrop':
+                relay = pipe.MaildropRelay(timeout=T_OTHER)
+            elif rc == 'dovecot':
+                relay = pipe.DovecotLdaRelay(timeout=T_OTHER)
+            else:
+                relay = pipe.PipeRelay(['x', '{recipient}'], timeout=T_OTHER)
             relay.per_recipient = case['per_recipient']
             envs = [make_envelope(0, case['n'])]
         else:
